@@ -693,8 +693,16 @@ def m_vec_is_empty(ex, st, callee, args, dest_ty):
     yield st, mk_bool(z3.simplify(_vec_at(ex, st, args[0]).len == 0))
 
 
+def _base_ref(ex, st, r):
+    """follow a chain of references (&mut &mut Vec, RefMut, ..) to the reference that points at the container itself"""
+    base = r
+    while isinstance(base, Ref) and isinstance(ex.read(st, base.cell, base.projs), Ref):
+        base = ex.read(st, base.cell, base.projs)
+    return base
+
+
 def m_vec_push(ex, st, callee, args, dest_ty):
-    r = args[0]
+    r = _base_ref(ex, st, args[0])
     v = _vec_at(ex, st, r)
     for st2, n in ex.enum_values(st, v.len, limit=len(v.items) + 2):
         v2 = _vec_at(ex, st2, r)
@@ -703,7 +711,7 @@ def m_vec_push(ex, st, callee, args, dest_ty):
 
 
 def m_vec_pop(ex, st, callee, args, dest_ty):
-    r = args[0]
+    r = _base_ref(ex, st, args[0])
     v = _vec_at(ex, st, r)
     for st2, n in ex.enum_values(st, v.len, limit=len(v.items) + 2):
         v2 = _vec_at(ex, st2, r)
@@ -715,7 +723,7 @@ def m_vec_pop(ex, st, callee, args, dest_ty):
 
 
 def m_vec_index(ex, st, callee, args, dest_ty):
-    r = args[0]
+    r = _base_ref(ex, st, args[0])
     v = _vec_at(ex, st, r)
     i = args[1]
     for st2 in ex.branch(st, i.e >= v.len):
@@ -800,7 +808,7 @@ BASE_MODELS = [
     (R(r"^<[A-Za-z_:]*[A-Z][A-Z0-9_]+ as Deref>::deref$"), m_lazy_deref),
     (R(r"^<((std::string::)?String|Vec<.*>|&.*) as Deref(Mut)?>::deref(_mut)?$"), m_deref_identity),
     (R(r"^String::as_str$|^<String as AsRef<str>>::as_ref$|^String::as_mut_str$|^<str as AsRef<str>>::as_ref$"), m_deref_identity),
-    (R(r" as Clone>::clone$"), m_clone),
+    (R(r" as Clone>::clone$| as ToOwned>::to_owned$"), m_clone),
     (R(r"^<str as ToString>::to_string$|^<String as ToString>::to_string$|^<str as ToOwned>::to_owned$|^<String as From<&str>>::from$|^must_use::<.*>$|^<&str as Into<String>>::into$|^<&str as ToString>::to_string$"), m_clone),
     (R(r" as PartialEq(<.*>)?>::(eq|ne)$"), m_partial_eq),
     (R(r"^<&.+ as (PartialEq|PartialOrd|Ord)(<&.*>)?>::\w+$"), m_ref_forward),
